@@ -135,6 +135,7 @@ type API struct {
 	Crashed      bool
 	inCallback   bool
 	callsInStep  int
+	MidHook      func() // called before every controller create/update, outside the lock
 	stepEventIdx map[string]map[Res]int // start of the current step in each pending list
 	EverCreated  map[Res]map[string]int // key -> number of successful creates
 }
@@ -595,6 +596,11 @@ func copyStrMap(m map[string]string) map[string]string {
 // React returns the reaction function for one resource of a fake clientset.
 func (a *API) React(r Res) ktesting.ReactionFunc {
 	return func(action ktesting.Action) (bool, runtime.Object, error) {
+		// Creates and updates are issued from the reconciler's own goroutine: the
+		// point where watch events may overtake a running reconcile (World.MidPlan).
+		if v := action.GetVerb(); a.MidHook != nil && (v == "create" || v == "update") {
+			a.MidHook()
+		}
 		a.mu.Lock()
 		defer a.mu.Unlock()
 		ns := action.GetNamespace()
@@ -736,3 +742,14 @@ func (a *API) EndStep() int {
 
 // CallsInStep returns the number of write calls made so far in this step.
 func (a *API) CallsInStep() int { return a.callsInStep }
+
+// ShiftStepIdx accounts for n events of (set, r) consumed from the front of the
+// pending list while a step is running.
+func (a *API) ShiftStepIdx(set string, r Res, n int) {
+	if m := a.stepEventIdx[set]; m != nil {
+		m[r] -= n
+		if m[r] < 0 {
+			m[r] = 0
+		}
+	}
+}
